@@ -109,6 +109,20 @@ func newBuffer(seed int64) *bufComp {
 
 func (c *bufComp) Finish() {}
 
+// dagToken describes the events and the limit for the driver's search over the extracted Buffer.v model:
+// dag=<limitNum>/<limitSize>/<i>:<parent.parent>:<size>;...
+func (c *bufComp) dagToken() string {
+	var parts []string
+	for i, e := range c.evs {
+		ps := []string{}
+		for _, p := range e.parents {
+			ps = append(ps, itoa(p))
+		}
+		parts = append(parts, fmt.Sprintf("%d:%s:%d", i, strings.Join(ps, "."), e.ev.Size()))
+	}
+	return fmt.Sprintf(" dag=%d/%d/%s", c.limit.Num, c.limit.Size, strings.Join(parts, ";"))
+}
+
 func (c *bufComp) Gen(r *rand.Rand, t, i int, lin bool) []string {
 	e := itoa(r.Intn(len(c.evs)))
 	n := r.Intn(100)
@@ -306,6 +320,5 @@ func ebMid() {
 	h = append(h, pushRec)
 	h = append(h, reads...)
 	do(0, "Total")
-	_ = strings.Join
-	report(h, c.Model(), true)
+	report(h, c.Model(), "buffer", c.dagToken())
 }
